@@ -28,6 +28,37 @@ MOD = "pykdebugparser.traces_parser"
 SELF = param("self")
 
 
+def strip_mut(t: T) -> T:
+    while t is not None and t.op == "mut":
+        t = t.a[0]
+    return t
+
+
+def winlike(t, st: T, tid: T) -> bool:
+    """Does the term denote the emitting thread's table of open windows, state[event.tid]?"""
+    if t is None:
+        return False
+    t = strip_mut(t)
+    if t == T("sub", (st, tid)):
+        return True
+    if t.op == "call" and t.a[0].op == "attr" and t.a[0].a[0] == st and t.a[0].a[1] in ("setdefault", "get") \
+            and t.a[1][:1] == (tid,) and (len(t.a[1]) == 1 or sym.truth(t.a[1][1]) is False):
+        return True
+    if t.op == "ite":            # {} stored on the path where the thread was unknown, the old table otherwise
+        return all(winlike(x, st, tid) or (x.op == "dict" and not x.a[0]) for x in (t.a[1], t.a[2]))
+    return False
+
+
+def lift_ite(t: T) -> T:
+    """f(a, x if c else y)  ->  f(a, x) if c else f(a, y)   (one conditional argument)."""
+    if t.op == "call":
+        for i, a in enumerate(t.a[1]):
+            if a.op == "ite":
+                mk = lambda v: T("call", (t.a[0], t.a[1][:i] + (v,) + t.a[1][i + 1:], t.a[2]))
+                return T("ite", (a.a[0], lift_ite(mk(a.a[1])), lift_ite(mk(a.a[2]))))
+    return t
+
+
 def check(repo: Repo, run: Run) -> None:
     interp = sym.Interp(repo)
     tp = repo.cls("traces_parser", "TracesParser")
@@ -133,32 +164,45 @@ def check(repo: Repo, run: Run) -> None:
         return fn, rec, ev, st, tid, eid, win
 
     def append_all_loops(rec, st, tid, win, ev):
-        """Loops that append the event to every open window of the thread: returns list of (loop, effect)."""
+        """Loops that append the event to every open window of the thread: list of (loop, effect, extra conditions).
+        Accepted iterations: over the table (keys), .keys(), list(...), .values(), .items()."""
         out = []
         for lid, lr in rec.loops.items():
-            if lr.kind != "for":
+            if lr.kind != "for" or lr.iter is None:
                 continue
-            src_ok = lr.iter_path == win or lr.iter == win \
-                or (lr.iter.op == "call" and lr.iter.a[0] == T("attr", (st, "get")) and lr.iter.a[1][:1] == (tid,)
-                    and len(lr.iter.a[1]) == 2 and sym.truth(lr.iter.a[1][1]) is False) \
-                or (lr.iter.op == "call" and lr.iter.a[0].op == "attr" and lr.iter.a[0].a[1] in ("keys",)
-                    and lr.iter.a[0].a[0] in (win,)) \
-                or (lr.iter.op == "call" and lr.iter.a[0].op == "builtin" and lr.iter.a[0].a[0] in ("list", "tuple")
-                    and lr.iter.a[1] and lr.iter.a[1][0] == win)
-            if not src_ok:
+            it = strip_mut(lr.iter)
+            mode = None
+            cands = [it, lr.iter_path]
+            if any(winlike(c, st, tid) for c in cands if c is not None):
+                mode = "keys"
+            elif it.op == "call" and it.a[0].op == "attr" and it.a[0].a[1] in ("keys", "values", "items") and not it.a[1] \
+                    and winlike(it.a[0].a[0], st, tid):
+                mode = it.a[0].a[1]
+            elif it.op == "call" and it.a[0].op == "builtin" and it.a[0].a[0] in ("list", "tuple") and it.a[1] \
+                    and winlike(it.a[1][0], st, tid):
+                mode = "keys"
+            if mode is None:
                 continue
             for e in rec.effects:
-                pth = e.path if e.path is not None else e.base
-                if lid in e.loops and e.kind == "mut-call" and e.key == "append" and e.args == (ev,) \
-                        and pth == T("sub", (win, lr.target)):
-                    # unconditional inside the loop?
+                if lid not in e.loops or e.kind != "mut-call" or e.key != "append" or e.args != (ev,):
+                    continue
+                pth = strip_mut(e.path if e.path is not None else e.base)
+                ok_target = False
+                if mode == "keys":
+                    ok_target = pth.op == "sub" and pth.a[1] == lr.target and winlike(pth.a[0], st, tid)
+                elif mode == "values":
+                    ok_target = pth == lr.target
+                elif mode == "items":
+                    ok_target = pth == T("sub", (lr.target, const(1)))
+                if ok_target:
                     inner = [c for c in e.pc if c not in _pc_at_loop(rec, lr)]
                     out.append((lr, e, inner))
         return out
 
     # ---- K3 START
     fn, rec, ev, st, tid, eid, win = common(start_m)
-    resets = [e for e in rec.effects if e.kind == "sub-store" and (e.path or e.base) == win and e.key == eid]
+    resets = [e for e in rec.effects if e.kind == "sub-store" and e.key == eid
+              and (winlike(e.path, st, tid) or winlike(e.base, st, tid))]
     ok = len(resets) == 1 and not resets[0].pc and not resets[0].loops and resets[0].value.op == "list" \
         and not resets[0].value.a[0]
     run.ob("K3", MOD, f"TracesParser.{start_m}", "fresh window bound unconditionally", ok,
@@ -204,7 +248,8 @@ def check(repo: Repo, run: Run) -> None:
     run.ob("K4", MOD, f"TracesParser.{end_m}", "append to every open window of the thread", okl,
            "END does not append the event (unconditionally, once) to every open window of its thread (its own included)",
            line=fn.lineno)
-    pops = [e for e in rec.effects if e.kind == "mut-call" and e.key == "pop" and (e.path or e.base) == win]
+    pops = [e for e in rec.effects if e.kind == "mut-call" and e.key == "pop"
+            and (winlike(e.path, st, tid) or winlike(e.base, st, tid))]
     okp = len(pops) == 1 and pops[0].args == (eid,) and not pops[0].loops
     run.ob("K4", MOD, f"TracesParser.{end_m}", "window popped by event.eventid", okp,
            "" if okp else "END does not pop exactly state[tid][event.eventid]: the window stays open (later ENDs re-emit it) or "
@@ -213,7 +258,7 @@ def check(repo: Repo, run: Run) -> None:
         run.ob("K4", MOD, f"TracesParser.{end_m}", "append precedes pop", loops[0][0].body_seq[1] < pops[0].seq,
                "the window is popped before the END record is appended: the trace does not end with its END", line=fn.lineno)
     if okp:
-        popped = T("call", (T("attr", (win, "pop")), (eid,), ()))
+        popped = T("call", (T("attr", (pops[0].base, "pop")), (eid,), ()))
         pel = M["parse_event_list"]
         want = interp.run(tp.module, pel, {"self": SELF, pel.args.args[1].arg: popped}, self_cls=tp).return_term()
         live = [r for r in rec.returns if r.kind == "return" and r.value != const(None)]
@@ -250,13 +295,14 @@ def check(repo: Repo, run: Run) -> None:
         return T("call", (T("sub", (T("attr", (SELF, "qualifiers_actions")), fq)), (ev, T("attr", (SELF, table))), ()))
     cond = T("bool", ("and", (T("cmp", ("in", eid, tc)), T("cmp", ("in", T("sub", (tc, eid)), trace_reg)))))
     want = T("ite", (cond, call_with("on_going_traces"), call_with("on_going_events")))
-    got = rec.return_term()
+    got = lift_ite(rec.return_term())
     ok = got == want
     if not ok:
         # tolerate the equivalent name-first formulation via .get
-        alt_name = T("call", (T("attr", (tc, "get")), (eid,), ()))
-        alt = T("ite", (T("cmp", ("in", alt_name, trace_reg)), call_with("on_going_traces"), call_with("on_going_events")))
-        ok = got == alt
+        for dflt in ((), (const(None),), (const(""),)):
+            alt_name = T("call", (T("attr", (tc, "get")), (eid,) + dflt, ()))
+            alt = T("ite", (T("cmp", ("in", alt_name, trace_reg)), call_with("on_going_traces"), call_with("on_going_events")))
+            ok = ok or got == alt
     run.ob("K6", MOD, "TracesParser.feed", "domain selection", ok,
            "" if ok else "feed does not dispatch qualifiers_actions[event.func_qualifier](event, on_going_traces) exactly when the "
                          "code's name is a key of the trace-family registry and (event, on_going_events) otherwise",
